@@ -26,6 +26,13 @@ pub fn run(ctx: &mut Ctx) {
         let written = if asyncw {
             let pm = l.build_async();
             guard(|| write_async(pm))
+        } else if i % 4 == 2 {
+            ctx.count("archives_built_through_detours");
+            let built = guard(|| l.build_messy(&mut rng));
+            match built {
+                Ok(pm) => guard(|| write_sync(pm)),
+                Err(p) => Err(p),
+            }
         } else {
             let pm = l.build();
             guard(|| write_sync(pm))
